@@ -139,6 +139,7 @@ type docState struct {
 	fontDictNum int
 	resDict     Dict
 	xobjNum     int
+	formOwner   *pageState // the one page whose last line is drawn by the form XObject
 	lenObjs     map[int]int // stream object -> its length object
 	kidsObjs    map[int]int
 }
@@ -312,6 +313,7 @@ func (d *docState) buildBase(set map[int]Obj) {
 	// pages must be numbered in document order = depth-first order of the tree, so hand them out in order
 	if sp.FormXObj {
 		d.xobjNum = d.alloc()
+		d.resDict = append(d.resDict, KV{"XObject", Dict{{"Fx1", d.ref(d.xobjNum)}}})
 	}
 	if sp.ResIndirect {
 		d.resNum = d.alloc()
@@ -336,7 +338,6 @@ func (d *docState) buildBase(set map[int]Obj) {
 		if _, ok := set[d.xobjNum]; !ok {
 			set[d.xobjNum] = &Stream{Dict: Dict{{"Type", Name("XObject")}, {"Subtype", Name("Form")}, {"BBox", Arr{0, 0, 612, 792}}}, Plain: []byte("q Q\n")}
 		}
-		d.resDict = append(d.resDict, KV{"XObject", Dict{{"Fx1", d.ref(d.xobjNum)}}})
 	}
 	if d.resNum != 0 {
 		set[d.resNum] = d.resDict
@@ -641,12 +642,10 @@ func (d *docState) writePageObjects(p *pageState, lines []Line, set map[int]Obj,
 	sp := d.spec
 	mainLines := lines
 	var formLines []Line
-	useForm := sp.FormXObj && d.xobjNum != 0 && len(lines) >= 2 && p == d.pages[0]
-	if useForm {
-		if _, done := set[d.xobjNum]; done {
-			useForm = false
-		}
+	if d.formOwner == nil && d.w.revs == 0 && sp.FormXObj && d.xobjNum != 0 && len(lines) >= 2 {
+		d.formOwner = p
 	}
+	useForm := p == d.formOwner && len(lines) >= 2
 	prog := d.contentFor(mainLines, r)
 	if useForm {
 		// the last line is drawn by a form XObject invoked at the end
@@ -656,6 +655,10 @@ func (d *docState) writePageObjects(p *pageState, lines []Line, set map[int]Obj,
 		prog = append(prog, []byte("q /Fx1 Do Q\n")...)
 		fp := d.contentFor(formLines, r)
 		fs := &Stream{Dict: Dict{{"Type", Name("XObject")}, {"Subtype", Name("Form")}, {"BBox", Arr{0, 0, 612, 792}}}, Plain: fp}
+		if r.Bool() {
+			// a form may carry its own resources; without them it uses the page's
+			fs.Dict = append(fs.Dict, KV{"Resources", Dict{{"Font", d.resDict.Get("Font")}}})
+		}
 		fs.Filters = d.chain(len(fp), r)
 		set[d.xobjNum] = fs
 	}
